@@ -234,6 +234,36 @@ fn cmp(name: &str, case: u64, what: &str, a: String, b: String, out: &mut Vec<St
     }
 }
 
+/// the same document with attributes a peer may add to an element (xsi:nil in its lexical forms, an attribute nobody declares),
+/// on each of the first three start tags: wrapped and bare must still read it to equal values (or fail alike)
+fn decorated(xml: &str) -> Vec<String> {
+    const EXTRA: [&str; 5] = [
+        " xsi:nil=\"true\" xmlns:xsi=\"http://www.w3.org/2001/XMLSchema-instance\"",
+        " xsi:nil=\"1\" xmlns:xsi=\"http://www.w3.org/2001/XMLSchema-instance\"",
+        " xsi:nil=\"false\" xmlns:xsi=\"http://www.w3.org/2001/XMLSchema-instance\"",
+        " nil=\" true \"",
+        " zzUndeclared=\"v\"",
+    ];
+    let bytes = xml.as_bytes();
+    let mut out = Vec::new();
+    let mut tags = 0;
+    let mut i = 0;
+    while i + 1 < bytes.len() && tags < 3 {
+        if bytes[i] == b'<' && (bytes[i + 1].is_ascii_alphabetic() || bytes[i + 1] == b'_') {
+            let mut j = i + 1;
+            while j < bytes.len() && !matches!(bytes[j], b' ' | b'>' | b'/' | b'\n' | b'\t') {
+                j += 1;
+            }
+            for e in EXTRA {
+                out.push(format!("{}{}{}", &xml[..j], e, &xml[j..]));
+            }
+            tags += 1;
+        }
+        i += 1;
+    }
+    out
+}
+
 macro_rules! probe {
     ($name:expr, $t:ty, $bare:ident, $wrapped:ident, $gen:expr, $rng:expr, $cases:expr, $out:expr, $n:expr) => {
         for case in 0..$cases {
@@ -247,6 +277,11 @@ macro_rules! probe {
                 let a = yaserde::de::from_str::<$t>(&xml).map(|x| format!("{x:?}"));
                 let b = yaserde::de::from_str::<MultiRef<$t>>(&xml).map(|x| format!("{x:?}"));
                 cmp($name, case, "root-de", format!("{a:?}"), format!("{b:?}"), $out, $n);
+                for doc in decorated(&xml) {
+                    let a = yaserde::de::from_str::<$t>(&doc).map(|x| format!("{x:?}"));
+                    let b = yaserde::de::from_str::<MultiRef<$t>>(&doc).map(|x| format!("{x:?}"));
+                    cmp($name, case, "root-de-decorated", format!("{a:?}"), format!("{b:?}"), $out, $n);
+                }
             }
             // clones share
             let c = w.clone();
@@ -292,6 +327,11 @@ macro_rules! probe {
                 let a = yaserde::de::from_str::<$bare>(&xml).map(|x| format!("{x:?}").replace(stringify!($bare), "H"));
                 let b = yaserde::de::from_str::<$wrapped>(&xml).map(|x| format!("{x:?}").replace(stringify!($wrapped), "H"));
                 cmp($name, case, "field-de", format!("{a:?}"), format!("{b:?}"), $out, $n);
+                for doc in decorated(&xml) {
+                    let a = yaserde::de::from_str::<$bare>(&doc).map(|x| format!("{x:?}").replace(stringify!($bare), "H"));
+                    let b = yaserde::de::from_str::<$wrapped>(&doc).map(|x| format!("{x:?}").replace(stringify!($wrapped), "H"));
+                    cmp($name, case, "field-de-decorated", format!("{a:?}"), format!("{b:?}"), $out, $n);
+                }
             }
         }
     };
